@@ -395,6 +395,13 @@ def gen_sym(rng, n, fam):
 
 
 SYM_FAMILIES = ["dense", "integer", "diagonal", "near_singular", "repeated"]
+# overall magnitudes: a covariance matrix times a positive constant has the same principal axes; power-of-two factors
+# make the float computation an exact scaling of the unscaled one (barring under/overflow); tolerances are relative to ||C||
+SCALE_EXPS = [-300, -100, -60, 100, 300]
+
+
+def scaled(Cm, k):
+    return [[math.ldexp(v, k) for v in r] for r in Cm]
 
 
 def gen_rhs(rng, n, A):
@@ -575,16 +582,20 @@ def run(ctx):
     fixed_sym = [[[3.0]], [[0.0]], [[2.0, 0.0], [0.0, -1.0]],
                  [[-2.0, 0.0, 0.0, 3.0], [0.0, 2.0, 3.0, 1.0], [0.0, 3.0, 2.0, -1.0], [3.0, 1.0, -1.0, 1.0]]]   # the 9b609a5 witnesses
     todo = [(Cm, "corpus") for Cm in fixed_sym]
+    todo += [(scaled(fixed_sym[3], k), "corpus*2^%d" % k) for k in (-60, -100, 300)]
+    dist_e["scale_exp"] = {}
     for n in range(1, 13):
         for fam in SYM_FAMILIES:
-            for _ in range(reps_e):
-                todo.append((gen_sym(rng, n, fam), fam))
+            for r in range(reps_e):
+                k = 0 if r % 2 == 0 else rng.choice(SCALE_EXPS)      # every other matrix at a non-unit magnitude
+                dist_e["scale_exp"][k] = dist_e["scale_exp"].get(k, 0) + 1
+                todo.append((scaled(gen_sym(rng, n, fam), k), fam if k == 0 else "%s*2^%d" % (fam, k)))
     for Cm, fam in todo:
         n = len(Cm)
         d0 = [1.0] * n if rng.random() < 0.7 else [rnd_float(rng) for _ in range(n)]
         tag, B, d, e, tab = impl_eig(Cm, d0)
         ctx.count()
-        dist_e["family"][fam] = dist_e["family"].get(fam, 0) + 1
+        dist_e["family"][fam.split("*")[0]] = dist_e["family"].get(fam.split("*")[0], 0) + 1
         dist_e["dim"][n] = dist_e["dim"].get(n, 0) + 1
         dist_e["pow_table_entries"] += len(tab)
         dist_e["cases_with_pow_entries"] += 1 if tab else 0
@@ -636,7 +647,10 @@ def run(ctx):
     for _ in range(extra_e):
         n = rng.randrange(1, 13)
         fam = rng.choice(SYM_FAMILIES)
-        Cm = gen_sym(rng, n, fam)
+        k = 0 if rng.random() < 0.4 else rng.choice(SCALE_EXPS)
+        dist_e["scale_exp"][k] = dist_e["scale_exp"].get(k, 0) + 1
+        Cm = scaled(gen_sym(rng, n, fam), k)
+        fam = fam if k == 0 else "%s*2^%d" % (fam, k)
         tag, B, d, e, _ = impl_eig(Cm, [1.0] * n)
         ctx.count()
         if n >= 3 and any(Cm[i][j] != 0.0 for i in range(n) for j in range(i)):
@@ -760,7 +774,7 @@ def run(ctx):
 
     lap("lsolveQ-coq")
     ctx.rule = ("symmetric matrices and square systems of dimension 1-12 from 5 families each (random dense, integer, diagonal/permuted diagonal, nearly singular, "
-                "repeated eigenvalues) + exactly singular systems (zero row/column, duplicate/power-of-two rows; integer combinations) + a fixed corpus; "
+                "repeated eigenvalues; every other symmetric matrix multiplied by 2^k, k in {-300,-100,-60,100,300}) + exactly singular systems (zero row/column, duplicate/power-of-two rows; integer combinations) + a fixed corpus; "
                 "eig case non-trivial = dimension >= 3 with a non-zero off-diagonal entry; lsolve case non-trivial = dimension >= 2 and (first pivot needs a row swap "
                 "or the outcome is not 'solved'); exact-Q case non-trivial = dimension >= 2; distinct by full input")
 
